@@ -233,6 +233,47 @@ verif_flush(void)
 }
 
 
+/* Queue high-water marks; always called with the scheduler lock held. */
+static const char *const qname[] = {
+  "coll_q", "trans_q", "reord_q", "retr_q", "emit_q", "unord_q", "scan_q",
+};
+#define NQ (sizeof(qname) / sizeof(qname[0]))
+static unsigned qmax[NQ];
+static unsigned qcap[NQ];
+
+void
+verif_qmark(const char *name, unsigned size, unsigned cap)
+{
+  unsigned i;
+
+  if (trace_path == NULL)
+    return;
+  for (i = 0; i < NQ; i++) {
+    if (strcmp(name, qname[i]) == 0) {
+      if (size > qmax[i])
+        qmax[i] = size;
+      qcap[i] = cap;
+      return;
+    }
+  }
+}
+
+void
+verif_qdump(void)
+{
+  unsigned i;
+
+  if (trace_path == NULL)
+    return;
+  for (i = 0; i < NQ; i++) {
+    if (qcap[i] != 0)
+      verif_event(VE_QSIZE, i + 1, qmax[i], qcap[i]);
+    qmax[i] = 0;
+    qcap[i] = 0;
+  }
+}
+
+
 void
 verif_init(void)
 {
